@@ -24,6 +24,7 @@ partial def parseErr (j : Json) : E Err := do
   | "kind" => pure (.kind (← parseKind (← str j "k")))
   | "redirect" => pure (.redirect (← int j "code") (← str j "to"))
   | "foreign" => pure .foreign
+  | "ctxdone" => pure (.ctxDone (if strD j "c" "canceled" == "deadline" then .deadlineExceeded else .canceled))
   | "wrap" => pure (.wrap (← parseErr (← fld j "e")))
   | "join" => pure (.join (← (← arr j "es").mapM parseErr))
   | "chain" => pure (.chain (← (← arr j "es").mapM parseErr))
@@ -114,24 +115,51 @@ def runHandler (c : Json) : E Json := do
   let f := plain e
   let h := ErrMap.http.respond cfg acc f
   let g := ErrMap.grpc.respond cfg acc f
+  -- state of the request's context when the failure reaches the handler of a service
+  let rc ← (match strD c "rctx" "live" with
+    | "live" => pure ReqCtx.live
+    | "cancelled" => pure ReqCtx.cancelled
+    | "deadline" => pure ReqCtx.deadlineExceeded
+    | x => throw s!"unknown request context state {x}")
+  let noCtx : Ctx := { upstream := [], pipelineError := none }
+  -- `(*handler).ServeHTTP` with the request context of the decision / proxy service, `Check` behind the interceptor
+  let viaExec (tr : Transport) : Out := handlerServe tr.translator cfg acc rc (some e) noCtx
+  -- the same failure kept as pipeline error and returned by `Finalize`
+  let viaFinalize (tr : Transport) : Out :=
+    handlerServe tr.translator cfg acc rc none { noCtx with pipelineError := some e }
   -- "identically by the HTTP services and the Envoy gRPC service" (inside the property's domain)
   let same (impl : Json) : Json :=
     match parseOut (fldD impl "http" Json.null), parseOut (fldD impl "grpc" Json.null) with
     | .ok a, .ok b => Json.bool (!(cfg.valid && e.redirectsValid) || (a.view == b.view && a.view.isSome))
     | _, _ => jstr "no answer"
+  let svcSides : List (String × Transport × Out) :=
+    [("dec", .http, viaExec .http), ("prx", .http, viaExec .http), ("env", .grpc, viaExec .grpc),
+     ("decfin", .http, viaFinalize .http), ("prxfin", .http, viaFinalize .http), ("envfin", .grpc, viaFinalize .grpc)]
   let spec := match c.getObjVal? "impl" with
-    | .ok impl => [("spec", Json.mkObj [
+    | .ok impl => [("spec", Json.mkObj ([
         ("http", judge .http cfg acc f (fldD impl "http" Json.null)),
         ("grpc", judge .grpc cfg acc f (fldD impl "grpc" Json.null)),
-        ("same", same impl)])]
+        ("same", same impl)] ++
+        (svcSides.filterMap fun (name, tr, _) =>
+          match impl.getObjVal? name with
+          -- "=http" / "=grpc": the answer of the service handler equals the translator's own
+          | .ok (.str "=http") => some (name, judge tr cfg acc f (fldD impl "http" Json.null))
+          | .ok (.str "=grpc") => some (name, judge tr cfg acc f (fldD impl "grpc" Json.null))
+          | .ok a => some (name, judge tr cfg acc f a)
+          | .error _ => none)))]
     | .error _ => []
   let accKind := match acc with | .absent => "absent" | .invalid => "invalid" | .ranges rs => s!"ranges{min rs.length 3}"
   let bodyOf (o : Out) : String := match o with
     | .resp r => (r.body.map mediaName).getD "none" | .panic => "panic" | .allowed => "allowed"
   pure (Json.mkObj ([
-    ("res", Json.mkObj [("http", outJson h), ("grpc", outJson g)]),
+    -- an answer of a service handler equal to the translator's own is written "=http" / "=grpc" (as the harness does)
+    ("res", Json.mkObj ([("http", outJson h), ("grpc", outJson g)] ++
+      svcSides.map fun (name, tr, o) =>
+        (name, if tr == .http && o == h then jstr "=http" else if tr == .grpc && o == g then jstr "=grpc"
+               else outJson o))),
     ("stats", Json.mkObj (errStats e ++ [
       ("accept", jstr accKind), ("verbose", Json.bool cfg.verbose),
+      ("rctx", jstr (strD c "rctx" "live")), ("ctxLeaf", Json.bool (e.leaves.any Leaf.isCtxDone)),
       ("httpBody", jstr (bodyOf h)), ("grpcBody", jstr (bodyOf g)),
       ("cfgValid", Json.bool cfg.valid), ("cfgNoSuccess", Json.bool cfg.noSuccess),
       ("redirectsValid", Json.bool e.redirectsValid)]))] ++ spec))
